@@ -195,7 +195,7 @@ class _Fn:
         m = re.match(r"^!(" + ATOM + r")$", rhs)
         if m:
             self.ty[n] = "int"
-            out.append({"k": "not", "n": n, "e": self.atom(m.group(1), "int")})
+            out.append({"k": "not", "n": n, "e": self.atom(m.group(1), "int"), "jsbool": True})
             return
         m = re.match(r"^typeof (" + ATOM + r") === 'object'$", rhs)
         if m:
